@@ -5,9 +5,10 @@
    (the twisted-Edwards instance is in Link/ExamplesTE.v)
    Every premise of the Link theorems is discharged here, INCLUDING associativity of the affine
    laws: over a 13-element field it is a finite statement ((#E + 1)^3 triples), checked by
-   [vm_compute] after proving that the enumeration of F_13 is exhaustive. *)
+   [vm_compute] (on the integer dictionary ZpOps 13, carried over by Base/ZpTransfer.v) after
+   proving that the enumeration of F_13 is exhaustive. *)
 From V Require Import Base.Field Base.Word Base.ZpField Base.ZpInstances C03.CurveExec C03.SWProofs
-  C03.FieldHyp C12.SWSubgroupProofs
+  C03.FieldHyp C12.SWSubgroupProofs Base.ZpTransfer
   Link.SubGroup Link.SWGroup Link.SWRealises.
 From V Require C04.GroupOps C04.GroupTheory C04.ScalarMul C04.Run C05.Run.
 Require Import Lia Bool.
@@ -32,11 +33,13 @@ Lemma all13 (Pd : Fp 13 -> bool) : forallb Pd els13 = true -> forall x, Pd x = t
 Proof. intros H x. rewrite forallb_forall in H. apply H. apply els13_all. Qed.
 
 (* a finite associativity check, generically *)
+Definition assoc_check {X : Type} (pts : list X) (beq : X -> X -> bool) (op : X -> X -> X) : bool :=
+  forallb (fun A => forallb (fun B => forallb (fun C => beq (op A (op B C)) (op (op A B) C)) pts) pts) pts.
 Lemma assoc_from_check {X : Type} (pts : list X) (beq : X -> X -> bool) (op : X -> X -> X) :
-  forallb (fun A => forallb (fun B => forallb (fun C => beq (op A (op B C)) (op (op A B) C)) pts) pts) pts = true ->
+  assoc_check pts beq op = true ->
   forall A B C, In A pts -> In B pts -> In C pts -> beq (op A (op B C)) (op (op A B) C) = true.
 Proof.
-  intros K A B C IA IB IC. rewrite forallb_forall in K. specialize (K A IA).
+  unfold assoc_check. intros K A B C IA IB IC. rewrite forallb_forall in K. specialize (K A IA).
   rewrite forallb_forall in K. specialize (K B IB). rewrite forallb_forall in K. exact (K C IC).
 Qed.
 
@@ -59,30 +62,60 @@ Proof.
   destruct A as [[x y]|], B as [[x' y']|]; cbn; intros H; try discriminate H; [|reflexivity].
   apply andb_true_iff in H. destruct H as [H1 H2]. apply Feq13 in H1, H2. subst. reflexivity.
 Qed.
-Definition sw_all13 : list (@sw_aff (Fp 13)) := None :: map Some (list_prod els13 els13).
-Lemma sw_all13_in A : In A sw_all13.
-Proof.
-  destruct A as [[x y]|]; [right | left; reflexivity].
-  apply in_map. apply in_prod; apply els13_all.
-Qed.
-Definition sw_pts13 : list (@sw_aff (Fp 13)) := filter (sw_aff_on_curve F13 a13 b13) sw_all13.
-Definition sw_assoc_check : bool :=
-  forallb (fun A => forallb (fun B => forallb (fun C =>
-    sw_beq (aff_add_sw F13 a13 A (aff_add_sw F13 a13 B C)) (aff_add_sw F13 a13 (aff_add_sw F13 a13 A B) C))
-    sw_pts13) sw_pts13) sw_pts13.
 
-(* the curve has 19 points (18 affine and the point at infinity); the law is associative on them (19^3 triples) *)
-Lemma sw_pts13_count : length sw_pts13 = 19%nat.
+(* The finite check runs on plain integers (the executed dictionary ZpOps 13: fast in the VM) and
+   is carried to FpOps 13 by the value lemmas of Base/ZpTransfer.v (aff_add_sw_val, aff_on_val). *)
+Definition Z13 : Fops Z := ZpOps 13.
+Definition zels13 : list Z := [0; 1; 2; 3; 4; 5; 6; 7; 8; 9; 10; 11; 12].
+Lemma zels13_all : forall x : Fp 13, In (fpv x) zels13.
+Proof.
+  intros x. pose proof (fpv_canon 13 x eq_refl) as H. unfold canon in H. set (v := fpv x) in *. clearbody v.
+  assert (E : v = 0 \/ v = 1 \/ v = 2 \/ v = 3 \/ v = 4 \/ v = 5 \/ v = 6 \/ v = 7 \/ v = 8 \/ v = 9 \/
+              v = 10 \/ v = 11 \/ v = 12) by lia.
+  unfold zels13. cbn [In]. intuition.
+Qed.
+Definition zsw_onb (A : option (Z * Z)) : bool :=
+  match A with
+  | None => true
+  | Some (x, y) => fmul Z13 y y =? fadd Z13 (fadd Z13 (fmul Z13 (fmul Z13 x x) x) (fmul Z13 0 x)) 2
+  end.
+Lemma zsw_onb_on A : aff_on Z13 0 2 A -> zsw_onb A = true.
+Proof. destruct A as [[x y]|]; [|reflexivity]. unfold zsw_onb, aff_on. intros H. apply Z.eqb_eq. exact H. Qed.
+Definition zsw_beq (A B : option (Z * Z)) : bool :=
+  match A, B with
+  | None, None => true
+  | Some (x, y), Some (x', y') => (x =? x') && (y =? y')
+  | _, _ => false
+  end.
+Lemma zsw_beq_eq A B : zsw_beq A B = true -> A = B.
+Proof.
+  destruct A as [[x y]|], B as [[x' y']|]; cbn; intros H; try discriminate H; [|reflexivity].
+  apply andb_true_iff in H. destruct H as [H1 H2]. apply Z.eqb_eq in H1, H2. subst. reflexivity.
+Qed.
+Definition zsw_pts13 : list (option (Z * Z)) := filter zsw_onb (None :: map Some (list_prod zels13 zels13)).
+(* 18 affine points and the point at infinity; 19^3 triples *)
+Lemma zsw_pts13_count : length zsw_pts13 = 19%nat.
 Proof. vm_compute. reflexivity. Qed.
-Lemma sw_assoc_check_true : sw_assoc_check = true.
-Proof. vm_cast_no_check (eq_refl true). Qed.   (* evaluated once, by the kernel, at Qed (~25 s) *)
-Lemma sw_pts13_in A : aff_on F13 a13 b13 A -> In A sw_pts13.
-Proof. intros H. apply onb_13 in H. apply filter_In. split; [apply sw_all13_in | exact H]. Qed.
+Lemma zsw_assoc_check_true : assoc_check zsw_pts13 zsw_beq (aff_add_sw Z13 0) = true.
+Proof. vm_compute. reflexivity. Qed.
+Lemma zsw_pts13_in (A : @sw_aff (Fp 13)) : aff_on F13 a13 b13 A -> In (aff_val A) zsw_pts13.
+Proof.
+  intros H. apply filter_In. split.
+  - destruct A as [[x y]|]; [right | left; reflexivity]. cbn [aff_val option_map pair_val fst snd].
+    apply in_map. apply in_prod; apply zels13_all.
+  - apply zsw_onb_on. apply (aff_on_val 13 a13 b13 A) in H. exact H.
+Qed.
+Lemma aff_val_inj (A B : @sw_aff (Fp 13)) : aff_val A = aff_val B -> A = B.
+Proof.
+  destruct A as [[x y]|], B as [[x' y']|]; cbn; intros H; try discriminate H; [|reflexivity].
+  injection H as H1 H2. apply fp_eq in H1, H2. subst. reflexivity.
+Qed.
 Theorem sw_assoc_13 : sw_law_assoc F13 a13 b13.
 Proof.
-  intros A B C HA HB HC. apply sw_beq_eq.
-  exact (assoc_from_check sw_pts13 sw_beq (aff_add_sw F13 a13) sw_assoc_check_true A B C
-           (sw_pts13_in A HA) (sw_pts13_in B HB) (sw_pts13_in C HC)).
+  intros A B C HA HB HC. apply aff_val_inj. unfold F13. rewrite !aff_add_sw_val.
+  change (fpv a13) with 0. change (ZpOps 13) with Z13. apply zsw_beq_eq.
+  exact (assoc_from_check zsw_pts13 zsw_beq (aff_add_sw Z13 0) zsw_assoc_check_true _ _ _
+           (zsw_pts13_in A HA) (zsw_pts13_in B HB) (zsw_pts13_in C HC)).
 Qed.
 
 (* the C04 / C05 headline statements with NO remaining premise: every limb slice, the point P13 *)
@@ -95,3 +128,6 @@ Proof.
   f_equal. apply sw_beq_eq. vm_compute. reflexivity.
 Qed.
 
+
+Lemma ex_wf : wf [5; 0].
+Proof. unfold wf. repeat constructor; unfold u64, W64; lia. Qed.
